@@ -6,3 +6,6 @@ extern crate alloc;
 
 pub mod common;
 pub mod c01;
+pub mod c05;
+pub mod c06;
+pub mod c07;
